@@ -19,7 +19,7 @@ PROP = "C13"
 LEVEL = "fault_enumeration"
 ENGINE = "BL+EP"
 N = {"quick": 4000, "thorough": 300000}
-TIME = {"quick": 35, "thorough": 420}
+TIME = {"quick": 300, "thorough": 420}
 FAULTS = ["none", "bidnan", "asknan", "bothnan", "disc", "disc+requote", "never"]
 RULE = ("Fault enumeration. (a) systematic: every fault kind {never quoted, bid-only, ask-only, both NaN, discontinued, "
         "discontinued-then-requoted, none} x position {long, short, flat} x {targeted long, targeted short, target 0, untargeted} "
